@@ -94,16 +94,34 @@ fn spell(l: &str) -> String {
     }
 }
 
+/// how the invocation is written: 0, 1 = by path (`unic_langid::langid!(..)`), 2 = imported with `use` and
+/// invoked by its bare name, 3 = by path inside a closure that is passed to a generic function.
+/// A function of the case itself (not of its index), so that a replay crate uses the same form.
+fn ctx_of(c: &MCase) -> u64 {
+    hash_str(&format!("{}|{:?}", c.mac, c.lits)) % 4
+}
+
 fn invocation(c: &MCase) -> String {
     let args: Vec<String> = c.lits.iter().map(|l| spell(l)).collect();
     let mut a = args.join(", ");
     if c.trailing_comma {
         a.push(',');
     }
+    let name = if ctx_of(c) == 2 { c.mac.clone() } else { path_of(&c.mac) };
     if is_list(&c.mac) {
-        format!("{}![{a}]", path_of(&c.mac))
+        format!("{name}![{a}]")
     } else {
-        format!("{}!({a})", path_of(&c.mac))
+        format!("{name}!({a})")
+    }
+}
+
+/// (statement before the binding, wrapper prefix, wrapper suffix) of the invocation
+fn context(c: &MCase) -> (&'static str, &'static str, &'static str) {
+    match ctx_of(c) {
+        2 => ("    use unic_langid::{lang, langid, langid_slice, langids, region, script, variant}; use unic_locale::{locale, locales};\n", "", ""),
+        // (langid_slice! borrows a temporary array: it cannot be returned from a closure)
+        3 if c.mac != "langid_slice" => ("", "pass((|| (", ",)))().0"),
+        _ => ("", "", ""),
     }
 }
 
@@ -123,6 +141,7 @@ pub fn cmp_list<T: PartialEq + Hash + Display + Debug>(m: &[T], p: &[T]) -> Resu
     for (a, b) in m.iter().zip(p.iter()) { cmp(a, b)?; }
     Ok(())
 }
+pub fn pass<T>(f: impl FnOnce() -> T) -> impl FnOnce() -> T { f }
 "#;
 
 struct Emitted {
@@ -142,11 +161,13 @@ fn emit(cases: &[(usize, &MCase)], per_file: usize) -> Emitted {
         let mut line = 2usize;
         for (i, c) in chunk {
             let ty = ty_of(&c.mac);
-            let inv = invocation(c);
+            let (pre, wa, wb) = context(c);
+            let inv = format!("{wa}\n        {}\n        {wb}", invocation(c));
             let start = line;
             let mut body = String::new();
             if c.expect_ok {
                 let _ = writeln!(body, "pub fn c{i}() -> Result<(), String> {{");
+                body.push_str(pre);
                 if is_list(&c.mac) {
                     if c.mac == "langid_slice" {
                         let _ = writeln!(body, "    let m: &[{ty}] =\n        {inv};");
@@ -166,6 +187,7 @@ fn emit(cases: &[(usize, &MCase)], per_file: usize) -> Emitted {
                 let _ = writeln!(body, "}}");
             } else {
                 let _ = writeln!(body, "pub fn c{i}() {{");
+                body.push_str(pre);
                 let _ = writeln!(body, "    let _m =\n        {inv};");
                 let _ = writeln!(body, "}}");
             }
